@@ -102,11 +102,21 @@ GHOST_QSERVE = ("sim2", 14312)
 
 
 class GhostClient:
+    """The installation's second queue server: it knows none of our jobs.  A job of a
+    collection that lives on the simulated server must never be sent here."""
+
     host, port = GHOST_QSERVE
+
+    def __init__(self, run=None):
+        self.run = run
 
     def send(self, name, **kwargs):
         if name == "qadd":
-            return kwargs.get("jobid")
+            jid = kwargs.get("jobid")
+            cid = jid.split(":", 1)[0] if isinstance(jid, str) else None
+            if self.run is not None and cid in self.run.assigned_here:
+                self.run.misrouted.append(jid)
+            return jid
         return None
 
 
@@ -139,6 +149,7 @@ class C19Run(qsrun.QsRun):
         self.calls = {}  # pid -> dict(kind, cid, writer, greenlet, out)
         self.npolls = 0
         self.assigned_here = set()
+        self.misrouted = []
         self.poll_stats = {}
         self.interleaved_polls = 0
 
@@ -167,7 +178,10 @@ class C19Run(qsrun.QsRun):
         def run():
             self._creating_pid = pid  # dispatch builds its queue proxy before anything can block
             try:
-                call["out"] = nserve.Application().dispatch(FakeRequest)
+                # through the route function bottle would call; `request` is bottle's per-request
+                # object (read before anything can block, so a module attribute is enough)
+                nserve.request = FakeRequest
+                call["out"] = nserve.dispatch_command("/")
             except gevent.GreenletExit:
                 raise
             except BaseException as e:  # noqa: BLE001  (bottle.HTTPResponse is an exception, too)
@@ -181,6 +195,7 @@ class C19Run(qsrun.QsRun):
         from mwlib.utils import lrucache
         from qs import rpcclient
         self._saved_proxy = nserve.rpcclient
+        self._saved_request = nserve.request
         run = self
 
         class _RpcClientModule:
@@ -194,7 +209,7 @@ class C19Run(qsrun.QsRun):
                     # the second queue server of the installation: it knows none of our jobs
                     call["ghost"] = True
                     call["was_assigned_here"] = call["cid"] in run.assigned_here
-                    return rpcclient.ServerProxy(rpc_client=GhostClient())
+                    return rpcclient.ServerProxy(rpc_client=GhostClient(run))
                 if (host, port) != SIM_QSERVE:
                     raise kernel_HarnessError(f"nserve picked queue server {(host, port)!r}")
                 run.assigned_here.add(call["cid"])  # nserve keeps a collection on the queue server it first chose
@@ -222,6 +237,7 @@ class C19Run(qsrun.QsRun):
     def _uninstall_nserve(self):
         from mwlib.core import nserve
         nserve.rpcclient = self._saved_proxy
+        nserve.request = self._saved_request
 
     def step_extra(self, st):
         sim, model = self.sim, self.model
@@ -264,6 +280,10 @@ class C19Run(qsrun.QsRun):
         self._check_calls()
 
     def _check_calls(self):
+        if self.misrouted:
+            jid = self.misrouted[0]
+            raise Violation("S-state", f"job {jid!r} of a collection that lives on this queue server was enqueued on the "
+                            f"installation's other queue server: its status can never be reported faithfully")
         for pid, call in self.calls.items():
             if call["finished"] and not call["checked"]:
                 call["checked"] = True
@@ -582,7 +602,7 @@ def evidence(stats, samples, plan, tier, seed, wall, nviol, known_hits, nworkers
     ev = qscommon.qs_evidence(PROP, "exploration", stats, samples, plan, tier, seed, wall, nviol, known_hits,
                               nworkers, RULE, {"expected_probes": EXPECTED_PROBES})
     comp = ev["coverage"]["components"] = copy.deepcopy(ev["coverage"]["components"])
-    comp["real"] += ["mwlib.core.nserve.Application.dispatch (command look-up, make_collection_id / check_collection_id, queue selection, "
+    comp["real"] += ["mwlib.core.nserve.dispatch_command (the bottle route function) and Application.dispatch (command look-up, make_collection_id / check_collection_id, queue selection, "
                      "error wrapping), do_render / do_render_status / _process_and_return_finished_state",
                      "mwlib.core.nserve.get_content_disposition(_values)", "qs.rpcclient.ServerProxy"]
     comp["stub"] += ["qs.rpcclient.RpcClient (InProcClient: same JSON framing, scheduler-released)",
